@@ -175,7 +175,23 @@ func (c *Ctx) ruleSinkAck(rule string, fn *ssa.Function, lockClass string, write
 		}
 		if n == 2 {
 			t := pa.TermsAt(pa.LastStep()).Of(rv[1])
-			if !(t.Op == "Extract" && t.Name == "1" && t.Args[0].V == lastW) {
+			var carries func(t *Term) bool
+			carries = func(t *Term) bool {
+				if t == nil {
+					return false
+				}
+				if t.Op == "Extract" && t.Name == "1" && len(t.Args) > 0 && t.Args[0].V == lastW {
+					return true
+				}
+				for _, a := range t.Args {
+					if carries(a) {
+						return true
+					}
+				}
+				return false
+			}
+			// (the retry's error itself, or an error built around it)
+			if !carries(t) {
 				r.Bad(rule, p.ShortFn(fn)+":retry-result", p.InstrPos(pa.End), "after the retry the error returned is not the retry's own error")
 			}
 		}
@@ -342,35 +358,7 @@ func runC08(c *Ctx) {
 		r.Und("C08.names", "instance-floor", "", "os.Remove / os.Rename sites not found")
 	}
 	c.ruleRenameTarget("C08.names")
-	// pruning cannot tell the active file from a rotated one (with timestamped names both match
-	// <base>-<digits><ext>): it runs only inside a rotation, after the handle was closed and
-	// before the next file is opened — never behind an open(), where the file being written
-	// counts against MaxFiles and can be the one that is removed
-	if pf := c.Fn("C08.names", PkgRoot, "FileSink", "pruneFiles"); pf != nil {
-		nCallers := 0
-		for _, f := range p.FuncsIn(PkgRoot) {
-			for _, ci := range callsTo(f, func(n string, cc *ssa.CallCommon) bool { return cc.StaticCallee() == pf }) {
-				nCallers++
-				opens := callsTo(f, func(n string, cc *ssa.CallCommon) bool { return n == "(*eventlogger.FileSink).open" })
-				closes := callsTo(f, func(n string, cc *ssa.CallCommon) bool { return n == "(*os.File).Close" })
-				okState := f.Name() == "rotate" && len(closes) > 0
-				for _, cl := range closes {
-					if !dominatesInstr(cl, ci) {
-						okState = false
-					}
-				}
-				for _, op := range opens {
-					if dominatesInstr(op, ci) || !dominatesInstr(ci, op) {
-						okState = false
-					}
-				}
-				r.Check(okState, "C08.names", p.ShortFn(f)+"->pruneFiles:handle-closed", p.InstrPos(ci), "pruning runs in rotate, after Close and before open: the active file is not among the candidates", "pruneFiles is called where a file may be open (outside rotate, or behind open()): with timestamped names the file being written matches the rotated-file pattern, takes one of the MaxFiles slots and can itself be removed — events acknowledged afterwards are in no file")
-			}
-		}
-		if nCallers == 0 {
-			r.Und("C08.names", "pruneFiles:callers", "", "no caller of pruneFiles found")
-		}
-	}
+	c.rulePruneHandleClosed("C08.names")
 	// the candidates come from the sink's own directory: a listing of fs.Path (the names are
 	// then filtered by C15.prune own-names), or a glob Join(Path, Sprintf(fileNamePattern(), "*"))
 	if pf := c.Fn("C08.names", PkgRoot, "FileSink", "pruneFiles"); pf != nil {
@@ -402,9 +390,157 @@ func (c *Ctx) osConst(name string) int {
 
 // ---------------------------------------------------------------------------
 
+// rulePruneHandleClosed (C08.names / C13.file pruneFiles:handle-closed): pruning cannot tell
+// the active file from a rotated one, so it runs only between the Close and the open of a rotation.
+func (c *Ctx) rulePruneHandleClosed(rule string) {
+	p, r := c.P, c.R
+	// pruning cannot tell the active file from a rotated one (with timestamped names both match
+	// <base>-<digits><ext>): wherever it is called the sink certainly holds no open file — on every
+	// path to the call the last thing that happened to FileSink.f is its Close / the store of nil /
+	// a test that found it nil, and nothing that may open a file since. Behind an open() the file
+	// being written counts against MaxFiles and can be the one that is removed.
+	pf := c.Fn(rule, PkgRoot, "FileSink", "pruneFiles")
+	if pf == nil {
+		return
+	}
+	isF := func(v ssa.Value) bool {
+		fa, ok := v.(*ssa.FieldAddr)
+		return ok && typeShort(fa.X.Type()) == "eventlogger.FileSink" && fieldName(fa) == "f"
+	}
+	isFLoad := func(v ssa.Value) bool {
+		ld, ok := v.(*ssa.UnOp)
+		return ok && ld.Op == token.MUL && isF(ld.X)
+	}
+	mayOpenMemo := map[*ssa.Function]int{}
+	var mayOpen func(fn *ssa.Function) bool
+	mayOpen = func(fn *ssa.Function) bool {
+		if v, ok := mayOpenMemo[fn]; ok {
+			return v == 1
+		}
+		mayOpenMemo[fn] = 0
+		res := false
+		eachInstr(fn, func(in ssa.Instruction) {
+			switch x := in.(type) {
+			case *ssa.Store:
+				if isF(x.Addr) && !isNilConst(x.Val) {
+					res = true
+				}
+			case ssa.CallInstruction:
+				if sc := x.Common().StaticCallee(); sc != nil && sc.Blocks != nil && p.InRepo(sc) && mayOpen(sc) {
+					res = true
+				}
+			}
+		})
+		if res {
+			mayOpenMemo[fn] = 1
+		}
+		return res
+	}
+	// closedAt: the must-state "no open handle" just before instruction at in f
+	var closedAt func(f *ssa.Function, at ssa.Instruction, depth int) bool
+	closedAt = func(f *ssa.Function, at ssa.Instruction, depth int) bool {
+		entry := false
+		if depth < 3 && f.Parent() == nil && f.Object() != nil && !f.Object().Exported() {
+			// an internal helper: what its callers established
+			nSites := 0
+			all := true
+			for _, g := range p.FuncsIn(PkgRoot) {
+				for _, ci := range callsTo(g, func(n string, cc *ssa.CallCommon) bool { return cc.StaticCallee() == f }) {
+					nSites++
+					if g == f || !closedAt(g, ci, depth+1) {
+						all = false
+					}
+				}
+			}
+			entry = nSites > 0 && all
+		}
+		transfer := func(st bool, in ssa.Instruction) bool {
+			switch x := in.(type) {
+			case *ssa.Store:
+				if isF(x.Addr) {
+					return isNilConst(x.Val)
+				}
+			case ssa.CallInstruction:
+				cc := x.Common()
+				if calleeName(cc) == "(*os.File).Close" && len(cc.Args) > 0 && isFLoad(cc.Args[0]) {
+					return true
+				}
+				if sc := cc.StaticCallee(); sc != nil && sc.Blocks != nil && p.InRepo(sc) && mayOpen(sc) {
+					return false
+				}
+			}
+			return st
+		}
+		in := map[*ssa.BasicBlock]bool{}
+		out := map[*ssa.BasicBlock]bool{}
+		for _, b := range f.Blocks {
+			in[b], out[b] = true, true
+		}
+		edge := func(from, to *ssa.BasicBlock) bool {
+			st := out[from]
+			cond, t, fb := condOf(from)
+			if bo, ok := cond.(*ssa.BinOp); ok && (bo.Op == token.EQL || bo.Op == token.NEQ) {
+				x, y := bo.X, bo.Y
+				if isNilConst(x) {
+					x, y = y, x
+				}
+				if isNilConst(y) && isFLoad(x) && t != fb {
+					if (bo.Op == token.EQL && to == t) || (bo.Op == token.NEQ && to == fb) {
+						return true
+					}
+				}
+			}
+			return st
+		}
+		for changed, iter := true, 0; changed && iter < 64; iter++ {
+			changed = false
+			for _, b := range f.Blocks {
+				st := true
+				if b == f.Blocks[0] {
+					st = entry
+				}
+				for _, pr := range b.Preds {
+					if !edge(pr, b) {
+						st = false
+					}
+				}
+				if b != f.Blocks[0] && len(b.Preds) == 0 {
+					st = false
+				}
+				o := st
+				for _, x := range b.Instrs {
+					o = transfer(o, x)
+				}
+				if st != in[b] || o != out[b] {
+					in[b], out[b] = st, o
+					changed = true
+				}
+			}
+		}
+		st := in[at.Block()]
+		for _, x := range at.Block().Instrs {
+			if x == at {
+				break
+			}
+			st = transfer(st, x)
+		}
+		return st
+	}
+	nCallers := 0
+	for _, f := range p.FuncsIn(PkgRoot) {
+		for _, ci := range callsTo(f, func(n string, cc *ssa.CallCommon) bool { return cc.StaticCallee() == pf }) {
+			nCallers++
+			r.Check(closedAt(f, ci, 0), rule, p.ShortFn(f)+"->pruneFiles:handle-closed", p.InstrPos(ci), "pruning runs where the sink certainly holds no open file (after Close / f = nil, before anything that opens): the active file is not among the candidates", "pruneFiles is called where a file may be open (no Close / nil handle on every path to the call, or behind an open()): with timestamped names the file being written matches the rotated-file pattern, takes one of the MaxFiles slots and can itself be removed — events acknowledged afterwards are in no file")
+		}
+	}
+	if nCallers == 0 {
+		r.Und(rule, "pruneFiles:callers", "", "no caller of pruneFiles found")
+	}
+}
+
 func runC13(c *Ctx) {
 	p, r := c.P, c.R
-	r.Explanation = "Decides on every path of the three stock sinks: writer.Sink and FileSink acknowledge (nil, nil) only after writing a reader over exactly the bytes Event.Format returned for the configured format (JSON when unset), once — or once more after rewinding the same reader when the first write failed — with the sink mutex held for writing, with the (last) write's error tested nil; a missing format or a failing write is an error; FileSink's /dev/null returns (nil, nil) without touching a file and stdout/stderr select os.Stdout/os.Stderr; ChannelSink.Process is one blocking select with exactly three arms — send of the very event parameter on the sink's channel -> (nil, nil), <-ctx.Done() -> (nil, ctx.Err()), <-time.After(timeout) -> (nil, non-nil) — no default and no other blocking instruction. Behaviour of the supplied io.Writer and real-time bounds are not decided. C13.ctor: NewChannelSink stores exactly its arguments after both guards. C13.format Format:reads-table: Event.Format answers from the format table itself, under Event.l. C13.recover: a recovered panic of a Writer reaches the error result."
+	r.Explanation = "Decides on every path of the three stock sinks: writer.Sink and FileSink acknowledge (nil, nil) only after writing a reader over exactly the bytes Event.Format returned for the configured format (JSON when unset), once — or once more after rewinding the same reader when the first write failed — with the sink mutex held for writing, with the (last) write's error tested nil; a missing format or a failing write is an error; FileSink's /dev/null returns (nil, nil) without touching a file and stdout/stderr select os.Stdout/os.Stderr; ChannelSink.Process is one blocking select with exactly three arms — send of the very event parameter on the sink's channel -> (nil, nil), <-ctx.Done() -> (nil, ctx.Err()), <-time.After(timeout) -> (nil, non-nil) — no default and no other blocking instruction. Behaviour of the supplied io.Writer and real-time bounds are not decided. C13.ctor: NewChannelSink stores exactly its arguments after both guards. C13.format Format:reads-table: Event.Format answers from the format table itself, under Event.l. C13.recover: a recovered panic of a Writer reaches the error result. C13.file handle-closed: pruneFiles only where no path leaves a file open."
 	r.NotDecided = []string{"behaviour of user-supplied io.Writers (short writes, buffering)", "real-time bounds of the timeout"}
 	c.lockControls()
 	// --- C13.writer
@@ -417,6 +553,9 @@ func runC13(c *Ctx) {
 	c.ruleRecoverResults("C13.recover", []string{PkgRoot, PkgWriter, PkgChannel}, false)
 	if fn := c.Fn("C13.file", PkgRoot, "FileSink", "Process"); fn != nil {
 		c.ruleSinkAck("C13.file", fn, "eventlogger.FileSink.l", fileSinkWriter, fileSinkSpecial)
+		// an acknowledged write must be in a file that stays below Path: pruning never runs while the
+		// file being written is open (it matches the rotated-name pattern and could be the one removed)
+		c.rulePruneHandleClosed("C13.file")
 		c.eNilRule("C13.file", fn, false)
 		// specials
 		nNull := 0
@@ -1783,12 +1922,8 @@ func runC15(c *Ctx) {
 			}
 		}
 		r.Check(okZero, "C15.prune", "pruneFiles:unlimited", p.Pos(fn.Pos()), "MaxFiles == 0: nothing is removed", "MaxFiles == 0 does not disable pruning")
-		// only called from rotate
-		for _, f := range p.FuncsIn(PkgRoot) {
-			for _, ci := range callsTo(f, func(n string, cc *ssa.CallCommon) bool { return cc.StaticCallee() == fn }) {
-				r.Check(f.Name() == "rotate", "C15.prune", p.ShortFn(f)+"->pruneFiles", p.InstrPos(ci), "pruning runs only as part of a rotation", "pruneFiles is called outside rotate (the active file could be a candidate)")
-			}
-		}
+		// only called where the sink holds no open file (the active file could be a candidate)
+		c.rulePruneHandleClosed("C15.prune")
 	}
 	// --- C15.count: who may write the rotation inputs. The trigger is stated over the bytes
 	// written and the age of the file "since it was opened": only open() may reset them and
